@@ -39,6 +39,9 @@ ASSUMPTIONS = [
     "applicability follows the docstrings: incidence matrix, dataframe and standard dict are driven with Hypergraph and SimplicialComplex only; "
     "for DiHypergraph the hyperedge list/dict representation is edges.dimembers() fed to DiHypergraph(...) / from_hyperedge_list|dict(create_using=DiHypergraph)",
     "representations without edge labels are compared position for position in view order; only the standard dict and the HIF dict are required to keep isolated nodes, empty edges and attributes, only HIF the class",
+    "networks without any incidence (only isolated nodes / empty edges, or nothing) are inputs like any other: their representation ([], empty frame, 0 x 0 matrix) must convert back to a network with no incidence",
+    "an exception raised by either direction of a pair is a violation (clause 'raises'), except the documented XGIError of to_hypergraph_dict when two IDs have the same string cast, which is demanded",
+    "to_dihypergraph called without create_using is monitored as its own call site (to_dihypergraph|create_using-omitted); DiHypergraph(list|dict) and from_hyperedge_list|dict(create_using=DiHypergraph) report under the pair",
     "a SimplicialComplex sent through a dataframe back into a SimplicialComplex is compared as a family of member sets (the documented reader assigns new IDs); back into a Hypergraph it is compared under labels",
     "class-to-class: edge identity is the edge ID when the target is a (Di)Hypergraph, the member set when the target is a SimplicialComplex; edge attributes are required only for source edges with a unique, non-empty member set; no claim that the target has nothing else (C07)",
     "attribute values are compared type-strictly (1, 1.0, True differ); labels by ==/hash",
@@ -241,7 +244,7 @@ def p_bipartite_edgelist(c, rng):
     def go():
         back = xgi.from_bipartite_edgelist(el)
         exp = O.expected(src, cls="DiHypergraph" if src.directed else "Hypergraph")
-        c.check("bipartite_edgelist", trigger, exp, back, ("class",) + O.INC, shape)
+        c.check("bipartite_edgelist", trigger, exp, back, O.INC, shape)
 
     c.guarded("bipartite_edgelist", trigger, go, shape)
 
@@ -281,7 +284,7 @@ def p_bipartite_graph(c, rng):
         e2i = {v: k for k, v in ite.items()}
         exp = O.expected(src, lambda n: n2i.get(n, ("unmapped", n)), lambda e: e2i.get(e, ("unmapped", e)),
                          cls="DiHypergraph" if src.directed else "Hypergraph")
-        c.check("bipartite_graph", src.cls, exp, back, ("class",) + O.INC, "index=True")
+        c.check("bipartite_graph", src.cls, exp, back, O.INC, "index=True")
 
     def positional():
         G = xgi.to_bipartite_graph(net)
@@ -290,7 +293,7 @@ def p_bipartite_graph(c, rng):
         npos = {v: i for i, v in enumerate(src.nodes)}
         epos = {e: n + j for j, e in enumerate(src.edges)}
         exp = O.expected(src, npos.__getitem__, epos.__getitem__, cls="DiHypergraph" if src.directed else "Hypergraph")
-        c.check("bipartite_graph", src.cls, exp, back, ("class",) + O.INC, "index=False")
+        c.check("bipartite_graph", src.cls, exp, back, O.INC, "index=False")
 
     c.guarded("bipartite_graph", src.cls, labelled, "index=True")
     if rng.random() < 0.5:
@@ -486,8 +489,6 @@ def case_graph_order(mon, idx, rng):
         exp = O.expected(src, nv.__getitem__, evx.__getitem__, cls="DiHypergraph" if src.directed else "Hypergraph")
         wit = c.witness(f"graph ({variant}): vertices={list(G.nodes(data='bipartite'))} edges={list(G.edges)}\nreturned: {got.brief()}")
         name = "from_bipartite_graph"
-        if got.cls != exp.cls:
-            mon.fail(f"{name}|{trigger}|class", f"expected {exp.cls}, got {got.cls}", wit)
         if got.inc != exp.inc or got.inc2 != exp.inc:
             rev = {(t[1], t[0]) + tuple(t[2:]) for t in exp.inc}
             clause = "nodes-edges-swapped" if (got.inc & rev) - exp.inc else "incidences"
